@@ -6,49 +6,14 @@
    theorem is for ANY hash (also colliding ones).  Go maps (members, deletedKeys) are association
    lists / duplicate-free lists; the only place the code iterates over a map
    (`for k := range r.deletedKeys { delete(r.members, k) }`) has an order-independent effect, so no
-   iteration order parameter is needed.  slices.SortFunc is modelled by insertion sort (the
+   iteration order parameter is needed.  slices.SortFunc is modelled by merge sort (Ord.ESort; the
    comparator is a total order in which only identical entries compare equal, so every correct
    sort gives the same slice: Proofs.sorted_perm_unique); slices.BinarySearchFunc is modelled as the
    bisection loop of the Go standard library.  Index-out-of-range panics are an explicit result. *)
 From Coq Require Import List NArith ZArith Arith Bool.
+From Verif.C45 Require Export Ord.
 Import ListNotations.
 Open Scope N_scope.
-
-Definition key := list N.
-Definition two64 : N := 18446744073709551616.
-
-(* Go string comparison: bytewise lexicographic *)
-Fixpoint bytes_cmp (a b : list N) : comparison :=
-  match a, b with
-  | [], [] => Eq
-  | [], _ :: _ => Lt
-  | _ :: _, [] => Gt
-  | x :: a', y :: b' => match N.compare x y with Eq => bytes_cmp a' b' | c => c end
-  end.
-Fixpoint key_eqb (a b : list N) : bool :=
-  match a, b with
-  | [], [] => true
-  | x :: a', y :: b' => N.eqb x y && key_eqb a' b'
-  | _, _ => false
-  end.
-
-Record entry := mkE { e_hash : N; e_key : key }.
-
-(* the comparator passed to slices.SortFunc *)
-Definition entry_cmp (a b : entry) : comparison :=
-  match N.compare (e_hash a) (e_hash b) with
-  | Eq => bytes_cmp (e_key a) (e_key b)
-  | c => c
-  end.
-Definition entry_leb (a b : entry) : bool :=
-  match entry_cmp a b with Gt => false | _ => true end.
-
-Fixpoint ins_sorted (e : entry) (l : list entry) : list entry :=
-  match l with
-  | [] => [e]
-  | x :: l' => if entry_leb e x then e :: l else x :: ins_sorted e l'
-  end.
-Definition isort (l : list entry) : list entry := fold_right ins_sorted [] l.
 
 (* slices.BinarySearchFunc(es, p, cmp(e.hash, p)): the loop of the standard library.
    fuel = len+1 iterations is more than the loop can take (Proofs.search_first_ge). *)
@@ -139,7 +104,7 @@ Section Ring.
         (r_sorted r).
 
   Definition sort_entries (r : ring) : ring :=
-    mkR (r_replicas r) (r_probes r) (r_members r) (r_deleted r) (isort (r_entries r)) true.
+    mkR (r_replicas r) (r_probes r) (r_members r) (r_deleted r) (ESort.sort (r_entries r)) true.
 
   Inductive lres := LNone | LSome (v : V) | LPanic.
 
